@@ -317,7 +317,7 @@ def run(tier):
         return len(set(parents)) < len(parents) and any(not b["ok"] for b in t) and any(b["cs"] for b in t)
     cand = [t for t in trees if interesting(t)]
     rng.shuffle(cand)
-    ntree = 3 if tier == "quick" else 10
+    ntree = 3 if tier == "quick" else 8
     scens = []
     for k, t in enumerate(cand[:ntree]):
         tp = os.path.join(wd, "tree_%d.json" % k)
@@ -329,7 +329,7 @@ def run(tier):
             V.log(out[-2000:])
             raise V.ToolError("c08 build failed: %s" % (s[0]["error"] if s else rc))
         scens.append((sp, ["before", "after"], 2 if tier == "thorough" else 1))
-    nrand = 1 if tier == "quick" else 6
+    nrand = 1 if tier == "quick" else 4
     for k in range(nrand):
         sp = os.path.join(wd, "scen_rand%d.json" % k)
         nb = 12 if tier == "quick" else rng.randint(10, 20)
